@@ -5,7 +5,7 @@ From stdpp Require Import gmap.
 From Coq Require Import ZArith Lia.
 From V Require Import Base.Res Base.ResLemmas Sched.LedgerModel Sched.StmtModel Sched.GangModel
   Sched.LedgerInvP Sched.LedgerInv Sched.LedgerLemmasA Sched.LedgerLemmasJob Sched.LedgerLemmasNode
-  Sched.LedgerLemmasSess Sched.LedgerLemmasSk Sched.LedgerLemmasTxn Sched.LedgerLemmasTxnN Sched.LedgerLemmasSound C07.Example.
+  Sched.LedgerLemmasSess Sched.LedgerLemmasSk Sched.LedgerLemmasTxn Sched.LedgerLemmasTxnN Sched.LedgerLemmasSound C07.Example C07.Refuted.
 Open Scope Z_scope.
 
 Global Instance task_eq_dec : EqDecision task.
@@ -170,3 +170,9 @@ Lemma ex_txn_all_recorded :
   map snd (map (fun k => step ex_eps (run ex_eps ex_sess (map (tx_op 1) (firstn k ex_txn))) (tx_op 1 (nth k ex_txn (TEvict false 1)))) [0; 1; 2; 3]%nat)
   = [ROk; ROk; ROk; ROk].
 Proof. vm_compute. reflexivity. Qed.
+
+(* the refused-dispatch case of failed_ssn_place_no_trace is not vacuous *)
+Lemma ex_dispatch_refused :
+  placeable d_sess (ex_task 1) 1 /\ snd (ssn_place ex_eps d_sess KAllocate 1 1) = RErr /\
+  sess_sameb d_sess (fst (ssn_place ex_eps d_sess KAllocate 1 1)) = true.
+Proof. split; [apply placeableb_sound; vm_compute; reflexivity|]. vm_compute. split; reflexivity. Qed.
